@@ -181,11 +181,14 @@ def identify_object(
         swhid = str(swhid_of_file_content(content))
     elif obj_type in ["content", "directory"]:
         path = os.fsencode(obj)
-        if follow_symlinks and os.path.islink(obj):
-            path = os.path.realpath(path)
         if obj_type == "content":
+            if follow_symlinks and os.path.islink(obj):
+                path = os.path.realpath(path)
             swhid = str(swhid_of_file(path))
         elif obj_type == "directory":
+            # a link given as the top directory is followed by the walk itself;
+            # the path is kept as given so that (absolute) exclusion patterns stay
+            # rooted at the argument, as in recursive mode
             swhid = str(swhid_of_dir(path, exclude_patterns))
     elif obj_type == "origin":
         try:
